@@ -73,6 +73,10 @@ def shapes(tier, focus="C14"):
             out.append({"mode": "api", "N": N, "req": 2, "init": 1, "growth": 128, "n_lin": 1, "maxprior": N - 1, "randomize": False,
                         "src": "object", "in_memory": inmem, "n_batches": None})
     if focus == "C14":
+        # the in-memory path also accepts an already packed array: same budget, same too-small rule
+        for N, mp_, init in ((3, 2, 1), (4, 2, 1), (3, 1, 2), (4, 3, 2)):
+            out.append({"mode": "api", "N": N, "req": 1 if mp_ == 1 else 2, "init": init, "growth": 128, "n_lin": 1, "maxprior": mp_, "randomize": False,
+                        "src": "packed", "in_memory": True, "n_batches": None})
         # a failure (non-finite likelihood) must surface as an exception
         for N, pos in ((2, 0), (3, 1), (3, 2)):
             out.append({"mode": "inmem", "N": N, "req": 1, "init": 1, "growth": 128, "n_lin": 1, "nonfinite": pos})
@@ -133,7 +137,7 @@ def run_harness(S, shape, logprobs=False):
         pool = env.Pool(w, size=1, order="reversed")
         joker = TJ(S.JokerPrior(S), pool=pool, rng=rng)
         data = types.SimpleNamespace(t_ref=units.Time(core.real("t_ref")))
-        src = S.as_samples(lib, lnp)
+        src = S.as_packed(lib) if shape["src"] == "packed" else S.as_samples(lib, lnp)
         out = joker.iterative_rejection_sample(data, src, n_requested_samples=req, max_prior_samples=shape["maxprior"], n_linear_samples=nlin,
                                                return_logprobs=logprobs, n_batches=shape["n_batches"], randomize_prior_order=shape["randomize"],
                                                init_batch_size=shape["init"], growth_factor=shape["growth"], in_memory=shape["in_memory"])
@@ -428,7 +432,8 @@ def replay(cand, focus="C14"):
                 try:
                     joker = TheJoker.__new__(TheJoker)
                     joker.pool, joker.rng, joker.prior = schwimmbad.SerialPool(), rng, object.__new__(thejoker.JokerPrior)
-                    out = joker.iterative_rejection_sample(None, prior, n_requested_samples=req, max_prior_samples=shape["maxprior"],
+                    src_ = prior.pack(units=helper.internal_units, names=helper.packed_order)[0] if shape.get("src") == "packed" else prior
+                    out = joker.iterative_rejection_sample(None, src_, n_requested_samples=req, max_prior_samples=shape["maxprior"],
                                                            n_linear_samples=nlin, return_logprobs=logprobs, n_batches=shape["n_batches"],
                                                            randomize_prior_order=shape["randomize"], init_batch_size=shape["init"],
                                                            growth_factor=shape["growth"], in_memory=shape["in_memory"])
